@@ -30,11 +30,17 @@ RULE = ("each run draws an operation (kernel level: add, scale, mul, diff, poiss
         "classes). Pre-phase: exhaustive encode/decode bijection sweep over all 1 947 792 multi-indices of degree <= 30. Post-phase: "
         "real-binary sweep over numba thread counts, chunk sizes and both threading layers in fresh subprocesses. A run is non-trivial "
         "iff >= 2 simulated threads were active and >= 1 context switch happened; distinct = distinct (operation, inputs digest, "
-        "per-cell load/store order signature).")
+        "per-cell load/store order signature). Workload dimensions added against seeded changes: operands longer and shorter than the "
+        "truncation degree, complex blocks with vanishing real or imaginary parts, substitution matrices with zero rows (+ shifts on them), "
+        "permutations, conjugate pairs and power-of-two rescalings over a wide dynamic range, an optional prior call in the same run. "
+        "Warm-up: the compiled calls are first made in a sacrificial interpreter; a call that aborts it (nested parallel region under the "
+        "workqueue layer) is skipped in-process, still simulated from source, and reported as a violation after the search.")
 ASSUMPTIONS = [
     "numba compiles the kernels' Python source faithfully and implements prange privatisation/reduction semantics as documented",
     "memory model: sequential consistency at array-cell granularity; torn complex128 stores, store reordering and false sharing are not modelled",
     "pre-emption points: before every simple statement of a prange body and between the load and the store of a subscripted augmented assignment",
+    "a call from a simulated loop body into a compiled helper that neither is nor reaches a parallel kernel is ONE atomic step: a race between the load and the store inside such a helper on a shared argument is not explored (seeded change c06i, DESIGN.md 10.2)",
+    "the substitutions' documented final clean (|c| <= 1e-14 -> 0) is the only place where a coefficient of the result may vanish (rescaling matrices only)",
     "the slot<->exponent map is taken from the library's tables; its bijectivity is established separately by the exhaustive layout sweep",
     "operations that divide (integrate) or multiply many factors (evaluate, float class) are compared to the rational model to 4 ulp / 1e-12 relative, not bitwise",
 ]
